@@ -9,6 +9,9 @@ transformers write nodes in place) and compared with the expression of the corre
 sink of the result; plus the extra claims for dedup / split / expand.
 Expansion: sub-graph templates with no / explicit input and output maps of every shape (empty, partial, identity, swapping,
 fan-in, extra keys) whose node names collide with the names the maps talk about (gen_template_maps, SHAPES).
+Split keys read the node only (name / payload / outputs), the node's DIRECT inputs too (input names, selected outputs, the parents' name / payload /
+outputs / source-ness: "io" for sources and what reads a source, "compute" for the rest ...) or walk further up (depth, ancestors); for the second family
+the generator looks for graphs where the key of a node would differ if it were taken after the node's inputs have been rewired to cut sources.
 Fusion callbacks answer with a new Node, with the child object written in place, a mix of both, or the child as it is (FMODES, FKeep).
 Sessions (gen_session / run_session): programs of several operations in one process on Graph objects that live on -- Graph.empty(), +, +=,
 join_namespaced (1-3 graphs, the same graph twice, adversarial namespaces), and copy / rename / dedup / fuse applied to graphs made by
@@ -39,8 +42,15 @@ ASSUMPTIONS = [
     "C11_dedup_preserves: the interpretation takes inputs as keyword arguments (a dictionary: hypothesis interp_kw), because _cmp_nodes merges nodes whose inputs are listed in a different order; "
     "the predicate only merges nodes of equal payload (pred_payload); C11_dedup_no_two_equal: pred decides payload equality (pred_spec); "
     "self.nodes (a set) is modelled as a list in registration order, __find_node returns the first match",
+    "split: the key callback is a function of the node and of the heap its inputs point into (it may follow n.inputs[..].parent); the model takes it on the INPUT graph "
+    "(key (heap g) nd: the Splitter asks once per node, before it writes node.inputs). Exact for keys that read the node and, of its direct inputs, the input names, the "
+    "selected output names and each parent's name / outputs / payload / whether it has inputs -- fields the Splitter never writes (KFUNS_NODE, KFUNS_INPUTS); keys that walk "
+    "further up (KFUNS_DEEP) read parents that are already rewired to cut sources: they are run against the property oracle only (every node in exactly one part, a part named "
+    "by a key the function returned for that node; reported cuts = edges between parts; re-join), not against the model",
     "C11_split_rejoin / C11_split_cuts_exact_partial: key function, key equality and the cut-name hash are arbitrary parameters; re-joining = the source node of a cut denotes the output the cut replaced (sem_rj); "
-    "C11_split_partition: key equality is equality (keqb a b = true <-> a = b). That distinct cut edges get distinct names (CutEdge.name is a hash) is outside the model: the oracle checks it on adversarial field texts",
+    "C11_split_placed_by_input_key: which result node is the written version of which input node is read off the engine's `done` dict, kept as a ghost field of the model's "
+    "result (rdone); the version keeps name, outputs, payload and input names, its inputs may be cut sources. "
+    "C11_split_partition / C11_split_part_of_key: key equality is equality (keqb a b = true <-> a = b). That distinct cut edges get distinct names (CutEdge.name is a hash) is outside the model: the oracle checks it on adversarial field texts",
     "C11_dedup_idempotent: pred decides payload equality; sink order of the model (the implementation's set order is matched by the checker)",
     "C11_expand_sources: input maps are association lists with distinct keys (a Python dict); the default Splicer (splice_source / splice_sink not overridden)",
     "C11_expand_splice_sem: the sub-graph is acyclic and the node's transformed inputs live in the result heap; the reading of the sub-graph with its bound sources connected (ssem) is a definition of "
@@ -474,14 +484,78 @@ def pay_class(p):
     return "none" if p is None else "int" if isinstance(p, int) else "str" if isinstance(p, str) else "seq"
 
 
-KFUNS = [("KHead", None), ("KHead", None), ("KConst", "k"), ("KPay", None), ("KOuts", None), ("KName", None), ("KLast", None), ("KLen", None)]
+# key functions.  KFUNS_NODE read the node only (name / payload / outputs -- all the repository's tests use).  KFUNS_INPUTS read the node's
+# DIRECT inputs as well: input names, the output names they select, and of each parent what the Splitter never writes (name, payload, outputs,
+# whether it has inputs) -- "io for sources and whatever reads a source, compute for the rest".  The Splitter writes node.inputs while it walks
+# the graph, so for these keys it matters WHEN the key of a node is taken: split_graph takes it once, when the node is visited and still has the
+# inputs of the input graph.  KFUNS_DEEP walk further up (depth, ancestors' payloads, grandparents): they read a graph that is partly split
+# already, so the part a node goes to is not predicted -- the oracle demands of them what the property says (every node in exactly one part, a
+# part whose key the function returned for that node; the reported cuts are the edges between parts; re-joining gives back the original).
+KFUNS_NODE = [("KHead", None), ("KHead", None), ("KConst", "k"), ("KPay", None), ("KOuts", None), ("KName", None), ("KLast", None), ("KLen", None)]
+KFUNS_INPUTS = [("KIo", None), ("KIo", None), ("KNin", None), ("KParHead", None), ("KParPay", None), ("KIname", None), ("KOname", None), ("KParOuts", None),
+                ("KMix", None), ("KParNames", None)]
+KFUNS_DEEP = [("KDepth", None), ("KAncInt", None), ("KRoots", None), ("KGrand", None)]
+# keys that are not strings (K is any hashable with ==): an int, a pair, a tuple of input names -- all read the node and its direct inputs; oracle as for
+# KFUNS_INPUTS, no model case (the model's checker instantiates K with strings)
+KFUNS_TYPED = [("KNinInt", None), ("KPair", None), ("KInTuple", None)]
+KFUNS = KFUNS_NODE + KFUNS_INPUTS
+DEEP_KINDS = {k for k, _ in KFUNS_DEEP}
+NOCOQ_KINDS = DEEP_KINDS | {k for k, _ in KFUNS_TYPED}
+INPUT_KINDS = {k for k, _ in KFUNS_INPUTS}
+
+
+def _outs_class(outs):
+    return "sink" if not outs else "one" if len(outs) == 1 else "many"
+
+
+def _parents(n):
+    return [src.parent for src in n.inputs.values()]
+
+
+def _k_io(n):
+    return "io" if not n.inputs or any(not p.inputs for p in _parents(n)) else "compute"
+
+
+def _depth(n, memo=None):
+    memo = {} if memo is None else memo
+    if id(n) not in memo:
+        memo[id(n)] = 1 + max((_depth(p, memo) for p in _parents(n)), default=-1)
+    return memo[id(n)]
+
+
+def _ancestors(n):
+    seen, todo = {}, list(_parents(n))
+    while todo:
+        p = todo.pop()
+        if id(p) not in seen:
+            seen[id(p)] = p
+            todo.extend(_parents(p))
+    return list(seen.values())
 
 
 def kfun_py(kf):
     kind, s = kf
     return {"KHead": lambda n: n.name[:1], "KConst": lambda n: s, "KPay": lambda n: pay_class(n.payload),
-            "KOuts": lambda n: "sink" if not n.outputs else "one" if len(n.outputs) == 1 else "many", "KName": lambda n: n.name,
-            "KLast": lambda n: n.name[-1:], "KLen": lambda n: "1" if len(n.name) % 2 else "0"}[kind]
+            "KOuts": lambda n: _outs_class(n.outputs), "KName": lambda n: n.name,
+            "KLast": lambda n: n.name[-1:], "KLen": lambda n: "1" if len(n.name) % 2 else "0",
+            # -- keys that read the direct inputs
+            "KIo": _k_io,
+            "KNin": lambda n: str(min(len(n.inputs), 2)),
+            "KParHead": lambda n: _parents(n)[0].name[:1] if n.inputs else "-",
+            "KParPay": lambda n: pay_class(_parents(n)[0].payload) if n.inputs else "src",
+            "KIname": lambda n: next(iter(n.inputs)) if n.inputs else "-",
+            "KOname": lambda n: next(iter(n.inputs.values())).name if n.inputs else "-",
+            "KParOuts": lambda n: _outs_class(_parents(n)[-1].outputs) if n.inputs else "-",
+            "KMix": lambda n: n.name[:1] + "/" + _k_io(n),
+            "KParNames": lambda n: ",".join(p.name for p in _parents(n)),
+            "KNinInt": lambda n: len(n.inputs),
+            "KPair": lambda n: (n.name[:1], _k_io(n)),
+            "KInTuple": lambda n: tuple(sorted(n.inputs)),
+            # -- keys that walk further up
+            "KDepth": lambda n: str(_depth(n) // 2),
+            "KAncInt": lambda n: "t" if any(isinstance(a.payload, int) for a in _ancestors(n)) else "f",
+            "KRoots": lambda n: "".join(sorted({a.name[:1] for a in _ancestors(n) if not a.inputs}))[:2],
+            "KGrand": lambda n: next((g.name[:1] for p in _parents(n) for g in _parents(p)), "-")}[kind]
 
 
 def kfun_coq(kf):
@@ -493,16 +567,30 @@ def coq_cut(c):
     return f"(mkCut {cstr(c.source_key)} {cstr(c.source_node)} {cstr(c.source_output)} {cstr(c.dest_key)} {cstr(c.dest_node)} {cstr(c.dest_input)})"
 
 
+class _O:
+    def __init__(self, parent, name):
+        self.parent, self.name = parent, name
+
+
 class _N:
-    def __init__(self, nd):
+    def __init__(self, nd, inputs=None):
         self.name, self.payload, self.outputs = nd["name"], nd["payload"], (["0"] if nd["outputs"] is None else nd["outputs"])
+        self.inputs = inputs or {}
+
+
+def spec_keys(spec, kf):
+    """the key of every reachable node of a spec, on stand-ins linked like the Node objects would be"""
+    keyf = kfun_py(kf)
+    fake = []
+    for nd in spec["nodes"]:
+        fake.append(_N(nd, {iname: _O(fake[j], o) for iname, j, o in nd["inputs"]}))
+    return {i: keyf(fake[i]) for i in sorted(reachable(spec))}
 
 
 def concat_collisions(spec, kf):
     """number of pairs of distinct cross-part edges whose field texts, written one after the other, read the same"""
-    keyf = kfun_py(kf)
     reach = sorted(reachable(spec))
-    keys = {i: keyf(_N(spec["nodes"][i])) for i in reach}
+    keys = spec_keys(spec, kf)
     edges = {(keys[j], spec["nodes"][j]["name"], o, keys[i], spec["nodes"][i]["name"], iname)
              for i in reach for iname, j, o in spec["nodes"][i]["inputs"] if keys[i] != keys[j]}
     texts = {}
@@ -523,6 +611,25 @@ def adversarial_split_case(rng, tries=300):
     return best, rng.choice(KFUNS)
 
 
+def late_keys(spec, kf):
+    """the keys the nodes WOULD get if the key function were asked after the cross-part inputs have been replaced by cut sources"""
+    keyf = kfun_py(kf)
+    keys = spec_keys(spec, kf)
+    fake = {}
+    for i in sorted(keys):
+        nd = spec["nodes"][i]
+        ins = {}
+        for iname, j, o in nd["inputs"]:
+            ins[iname] = _O(fake[j], o) if keys[j] == keys[i] else _O(_N({"name": "__cut__", "payload": None, "outputs": None}), "0")
+        fake[i] = _N(nd, ins)
+    return keys, {i: keyf(fake[i]) for i in keys}
+
+
+def pick_kfun(rng):
+    r = rng.random()
+    return rng.choice(KFUNS_NODE) if r < 0.3 else rng.choice(KFUNS_INPUTS) if r < 0.78 else rng.choice(KFUNS_TYPED) if r < 0.87 else rng.choice(KFUNS_DEEP)
+
+
 def drive_split(spec, rng, out):
     if out.get("flavour") == "tiny" and rng.random() < 0.7:
         spec2, kf = adversarial_split_case(rng)
@@ -530,19 +637,36 @@ def drive_split(spec, rng, out):
         spec.update(spec2)
         out["params"] = {"kfun": list(kf)}
         return run_split(spec, kf, out)
-    kf = rng.choice(KFUNS)
+    kf = pick_kfun(rng)
+    if kf[0] in INPUT_KINDS or kf in KFUNS_TYPED:
+        # mostly graphs on which the moment the key is taken matters: some node has a cut edge coming in and would get another key afterwards
+        for _ in range(6):
+            keys, late = late_keys(spec, kf)
+            if keys != late:
+                break
+            spec2 = gen_spec(rng, out.get("flavour") if out.get("flavour") in ("plain", "wide", "chain", "dup-names") else "chain")
+            spec.clear()
+            spec.update(spec2)
     out["params"] = {"kfun": list(kf)}
     return run_split(spec, kf, out)
 
 
 def run_split(spec, kf, out):
     from earthkit.workflows.graph import Graph, split_graph
-    keyf = kfun_py(kf)
+    pure = kfun_py(kf)
+    deep = kf[0] in DEEP_KINDS
+    nocoq = kf[0] in NOCOQ_KINDS
+    calls = {}
+
+    def keyf(n):
+        k = pure(n)
+        calls.setdefault(id(n), []).append(k)
+        return k
     g, objs = build_spec(spec)
     it = Interner()
     before = snapshot(g, it)
     reach = sorted(reachable(spec))
-    keys = {i: keyf(objs[i]) for i in reach}
+    keys = {i: pure(objs[i]) for i in reach}          # the key of every node IN THE INPUT GRAPH
     orig_sinks = list(g.sinks)
     try:
         parts, cuts = split_graph(keyf, g)
@@ -550,17 +674,37 @@ def run_split(spec, kf, out):
     except Exception as e:
         exc = type(e).__name__
     if exc:
-        out["coq"].append(("split", f"({kfun_coq(kf)}, {coq_spec(spec)}, so_err {cstr(exc)})"))
+        if not nocoq:
+            out["coq"].append(("split", f"({kfun_coq(kf)}, {coq_spec(spec)}, so_err {cstr(exc)})"))
         return ("split-raises-" + exc, f"split_graph raised {exc}")
-    heap, sink_idx = coq_objs([p.sinks for p in parts.values()])
-    parts_term = clist([f"({cstr(k)}, {clist([cnat(i) for i in idx])})" for k, idx in zip(parts.keys(), sink_idx)])
-    cuts_term = clist([f"({coq_cut(c)}, {cstr(c.name)})" for c in cuts])
-    out["coq"].append(("split", f"({kfun_coq(kf)}, {coq_spec(spec)}, so_ok (mkSO {heap} {parts_term} {cuts_term}))"))
+    st = out.setdefault("stats", set())
+    st.add("key-reads-" + ("ancestors" if deep else "direct-inputs" if (kf[0] in INPUT_KINDS or nocoq) else "node-only"))
+    if nocoq and not deep:
+        st.add("key-is-not-a-string")
+    if len({keys[i] for i in reach}) > 1:
+        st.add("several-parts")
+    try:
+        if any(pure(objs[i]) != keys[i] for i in reach):
+            st.add("key-of-some-node-differs-after-the-split")
+    except Exception:
+        pass
+    if not nocoq:
+        heap, sink_idx = coq_objs([p.sinks for p in parts.values()])
+        parts_term = clist([f"({cstr(k)}, {clist([cnat(i) for i in idx])})" for k, idx in zip(parts.keys(), sink_idx)])
+        cuts_term = clist([f"({coq_cut(c)}, {cstr(c.name)})" for c in cuts])
+        out["coq"].append(("split", f"({kfun_coq(kf)}, {coq_spec(spec)}, so_ok (mkSO {heap} {parts_term} {cuts_term}))"))
     # -- every node in exactly one part, the part of its key
     members = {k: topo_objects(p.sinks) for k, p in parts.items()}
     for i in reach:
         homes = [k for k, m in members.items() if any(o is objs[i] for o in m)]
-        if homes != [keys[i]]:
+        if deep:
+            # the key walks up a graph the Splitter is writing: the part is not predicted, it must be ONE part, named by a key the function gave for this node
+            if len(homes) != 1:
+                return ("split-not-a-partition", f"split_graph: node {objs[i].name!r} is in parts {homes!r}")
+            if homes[0] not in calls.get(id(objs[i]), []):
+                return ("split-part-is-no-key-of-the-node", f"split_graph: node {objs[i].name!r} is in part {homes[0]!r}, the key function answered {calls.get(id(objs[i]), [])!r} for it")
+            keys[i] = homes[0]
+        elif homes != [keys[i]]:
             return ("split-not-a-partition", f"split_graph: node {objs[i].name!r} (key {keys[i]!r}) is in parts {homes!r}")
     orig_ids = {id(objs[i]) for i in reach}
     # -- one cut per cross-part edge
@@ -1379,7 +1523,7 @@ CASE_TYPES = {"session": "list (gop * list (list nat))"}
 FLAVOURS = {"copy": ["plain", "plain", "wide", "chain", "dup-names"],
             "rename": ["plain", "plain", "wide", "chain", "dup-names"],
             "dedup": ["dups", "dups", "plain", "dups", "chain", "dup-names", "tiny"],
-            "split": ["plain", "tiny", "wide", "tiny", "chain"],
+            "split": ["plain", "tiny", "chain", "wide", "tiny", "chain", "plain", "dup-names"],
             "expand": ["plain", "plain", "wide", "chain"],
             "fuse": ["plain", "chain", "wide", "chain", "plain"]}
 
@@ -1519,6 +1663,10 @@ def run(ctx, res):
                 for f in sorted(set().union(*[template_features(byname[k], t) for k, t in rules.items()])) if rules else []:
                     res.count("expand:" + f)
                 res.count("expand:outside-domain" if out.get("outside") else "expand:inside-domain")
+            if tr == "split":
+                res.count("split:key:" + out["params"]["kfun"][0])
+                for f in sorted(out.get("stats", ())):
+                    res.count("split:" + f)
             if tr == "fuse":
                 res.count("fuse:callback:" + out["params"]["ffun"] + "/" + out["params"]["mode"])
             res.count("flavour:" + flavour)
